@@ -999,7 +999,7 @@ class Interp:
         nm = a[1] if a is not None and a[0] == "sym" else None
         if nm is not None and nm in self.attr_as_key and attr not in _TABLE_METHODS:
             return self._index(base, StrV(attr), node)
-        if attr in _TABLE_METHODS and nm is not None:
+        if attr in _TABLE_METHODS:
             return BoundExt(base, attr)
         if nm is not None:
             return sym_num(f"{nm}.{attr}")
@@ -1017,6 +1017,19 @@ class Interp:
     def _index(self, base, idx, node):
         if isinstance(idx, BoolV):  # boolean mask: elementwise view keeps the term
             if isinstance(base, Buf):
+                # reading a masked buffer under a mask: the part stored under the same predicate, or the fill
+                # value under the exact complement of the only stored part
+                if idx.kind == "cmp":
+                    k, neg, _d = self._cond_key(idx)
+                    for m, v in base.parts:
+                        if isinstance(m, BoolV) and m.kind == "cmp":
+                            k2, neg2, _ = self._cond_key(m)
+                            if k2 == k and neg2 == neg:
+                                return v
+                    if base.fill is not None and len(base.parts) == 1 and isinstance(base.parts[0][0], BoolV) and base.parts[0][0].kind == "cmp":
+                        k2, neg2, _ = self._cond_key(base.parts[0][0])
+                        if k2 == k and neg2 != neg:
+                            return base.fill
                 return Num(self.to_nf(base))
             return base
         if isinstance(base, DictV):
@@ -1470,6 +1483,16 @@ def _h_sum(it, args, kwargs, bound, node, qual):
     return Num(nf.fn("sum", *parts))
 
 
+def _h_bsum(it, args, kwargs, bound, node, qual):
+    """builtin sum(): over the items of a literal sequence, else an uninterpreted reduction `bsum`"""
+    if len(args) == 1 and isinstance(args[0], TupV):
+        acc = {}
+        for a in args[0].items:
+            acc = nf.add(acc, it.to_nf(a))
+        return Num(acc)
+    return Num(nf.fn("bsum", *[it.to_nf(a) for a in args]))
+
+
 def _h_len(it, args, kwargs, bound, node, qual):
     a = args[0]
     if isinstance(a, Vec):
@@ -1652,6 +1675,13 @@ def _h_diff(it, args, kwargs, bound, node, qual):
     return Vec(nf.sub(xa(nf.add(j, nf.ONE)), xa(j)), nf.sub(n, nf.ONE))
 
 
+def _h_vectorize(it, args, kwargs, bound, node, qual):
+    """np.vectorize(f)(...) applies f elementwise: in the term domain that is f itself"""
+    if args and isinstance(args[0], (FuncV, LambdaV)):
+        return args[0]
+    return None
+
+
 def _h_dataframe(it, args, kwargs, bound, node, qual):
     d = bound.get("data")
     if isinstance(d, DictV):
@@ -1663,6 +1693,7 @@ def _h_dataframe(it, args, kwargs, bound, node, qual):
 _EXT_HANDLERS = {
     "pandas.DataFrame": _h_dataframe,
     "numpy.diff": _h_diff,
+    "numpy.vectorize": _h_vectorize,
     "math.exp": _h_unary(nf.exp),
     "numpy.exp": _h_unary(nf.exp),
     "math.log": _h_unary(nf.log),
@@ -1678,7 +1709,7 @@ _EXT_HANDLERS = {
     "numpy.clip": _h_fn("clip"),
     "max": _h_fn("max", sort=True),
     "min": _h_fn("min", sort=True),
-    "sum": _h_sum,
+    "sum": _h_bsum,
     "numpy.sum": _h_sum,
     "numpy.any": _h_fn("any"),
     "numpy.all": _h_fn("all"),
